@@ -15,7 +15,7 @@ import (
 
 // Op is one director action of a case.
 //
-//	sub      Subscribe one channel whose reader is Reader = prompt (polls continuously) | manual (reads
+//	sub      (Pre = "done": with a context cancelled beforehand; "race": cancelled concurrently) Subscribe one channel whose reader is Reader = prompt (polls continuously) | manual (reads
 //	         only on `read` ops; never told to read = stalled). Subscriber ids are given in order of sub ops.
 //	batch    Batch(Key, fresh value)
 //	adv      move the clock forward by N milliseconds
@@ -33,6 +33,7 @@ import (
 type Op struct {
 	Op     string `json:"op"`
 	Reader string `json:"reader,omitempty"`
+	Pre    string `json:"pre,omitempty"` // sub: "done" = the context is cancelled BEFORE Subscribe is called, "race" = concurrently with it
 	Key    int    `json:"key,omitempty"`
 	Sub    int    `json:"sub,omitempty"`
 	N      int    `json:"n,omitempty"`
@@ -41,7 +42,7 @@ type Op struct {
 func (o Op) String() string {
 	switch o.Op {
 	case "sub":
-		return "sub:" + o.Reader
+		return "sub:" + o.Reader + o.Pre
 	case "batch":
 		return fmt.Sprintf("batch:%d", o.Key)
 	case "adv", "read":
@@ -391,7 +392,7 @@ func (w *World) departuresDone() bool {
 		w.mu.Lock()
 		c := s.cancelled
 		w.mu.Unlock()
-		if (c || (cr && s.sure.Load())) && !s.closed.Load() {
+		if ((c && s.sure.Load()) || (cr && s.sure.Load())) && !s.closed.Load() {
 			return false
 		}
 	}
@@ -516,10 +517,18 @@ func (w *World) exec(o Op) {
 		w.subAfterClose = w.closeCalled // such a subscriber may be dropped: no further ids are predictable
 		ctx, cancel := context.WithCancel(context.Background())
 		s := &subRec{reader: o.Reader, ch: make(chan int), cancel: cancel, stop: make(chan struct{}), afterClose: w.closeCalled}
+		kind := "scall"
+		if o.Pre != "" {
+			kind = "scalld"
+			s.cancelled = true
+		}
+		if o.Pre == "done" {
+			cancel()
+		}
 		w.mu.Lock()
 		s.id = len(w.subs)
 		w.subs = append(w.subs, s)
-		w.evs = append(w.evs, Ev{K: "scall", Now: w.nowNs()})
+		w.evs = append(w.evs, Ev{K: kind, Sub: s.id, Now: w.nowNs()})
 		w.mu.Unlock()
 		w.subPending.Add(1)
 		if s.reader == "prompt" {
@@ -538,6 +547,9 @@ func (w *World) exec(o Op) {
 			w.mu.Unlock()
 			w.subPending.Add(-1)
 		}()
+		if o.Pre == "race" {
+			cancel()
+		}
 		w.settle(opGrace)
 	case "batch":
 		w.doBatch(o.Key)
